@@ -331,7 +331,10 @@ pub const KF_BACKDATE_CYCLE: &str = "kf:backdate-assertion-near-cycle";
 pub struct CycKf {
     inner: Box<dyn Oracle>,
     /// nodes executed in a fixpoint computation that was finalized with unstable dependencies
-    tainted: BTreeSet<u8>,
+    /// -> revision of that computation
+    tainted: std::collections::BTreeMap<u8, u32>,
+    /// node -> last revision in which its body ran
+    exec_rev: std::collections::BTreeMap<u8, u32>,
     manifested: bool,
     ever_cyclic: BTreeSet<u8>,
     unstable_finalizations: u32,
@@ -341,7 +344,7 @@ pub struct CycKf {
 
 impl CycKf {
     pub fn new(inner: Box<dyn Oracle>) -> Self {
-        CycKf { inner, tainted: BTreeSet::new(), manifested: false, ever_cyclic: BTreeSet::new(), unstable_finalizations: 0, finalizations: 0, backdate_hits: 0 }
+        CycKf { inner, tainted: Default::default(), exec_rev: Default::default(), manifested: false, ever_cyclic: BTreeSet::new(), unstable_finalizations: 0, finalizations: 0, backdate_hits: 0 }
     }
 }
 
@@ -382,13 +385,21 @@ impl Oracle for CycKf {
                 }
             }
         }
-        if unstable {
-            for r in cx.recs {
-                if let Rec::Start(LKey::Node(n, _), _) = r {
-                    if matches!(prog.nodes[*n as usize].kind, Kind::Fix | Kind::FixJoin | Kind::Div | Kind::Fall) {
-                        self.tainted.insert(*n);
-                    }
+        let mut ran: BTreeSet<u8> = BTreeSet::new();
+        for r in cx.recs {
+            if let Rec::Start(LKey::Node(n, _), _) = r {
+                ran.insert(*n);
+                self.exec_rev.insert(*n, cx.rev);
+            }
+        }
+        for n in &ran {
+            if unstable {
+                if matches!(prog.nodes[*n as usize].kind, Kind::Fix | Kind::FixJoin | Kind::Div | Kind::Fall) {
+                    self.tainted.insert(*n, cx.rev);
                 }
+            } else {
+                // recomputed in a step whose cycles all finalized with stable dependency lists
+                self.tainted.remove(n);
             }
         }
         let mut v = self.inner.step(cx);
@@ -398,12 +409,16 @@ impl Oracle for CycKf {
             for c in lat.cycles() {
                 self.ever_cyclic.extend(c);
             }
-            let reaches_tainted = reach.iter().any(|n| self.tainted.contains(n));
+            // the finding manifests as a member that is REUSED (validated, not re-executed) in a
+            // later revision: some reachable function was finalized with unstable dependencies in
+            // an earlier revision and has not run in the current one
+            let rev = cx.rev;
+            let reaches_tainted = reach.iter().any(|n| self.tainted.get(n).map(|r0| *r0 < rev).unwrap_or(false) && self.exec_rev.get(n).map(|r| *r < rev).unwrap_or(true));
             let near_cycle = reach.iter().any(|n| self.ever_cyclic.contains(n));
             for x in v.iter_mut() {
                 let stale_like = matches!(x.rule.as_str(), "value-mismatch" | "missing-panic" | "unexpected-panic" | "wrong-panic")
                     && !x.detail.contains("returned the same value, but the previous execution changed at");
-                if stale_like && (reaches_tainted || self.manifested) && !self.tainted.is_empty() {
+                if stale_like && reaches_tainted {
                     x.rule = KF_STALE_DEPS.to_string();
                     self.manifested = true;
                 } else if x.rule == "unexpected-panic"
